@@ -1217,7 +1217,9 @@ def _decorate_new_with_invariants(new_func: CallableT) -> CallableT:
     return wrapper  # type: ignore
 
 
-def _decorate_with_invariants(func: CallableT, is_init: bool) -> CallableT:
+def _decorate_with_invariants(
+    func: CallableT, is_init: bool, is_setattr: Optional[bool] = None
+) -> CallableT:
     """
     Decorate the method ``func`` with invariant checks.
 
@@ -1225,6 +1227,9 @@ def _decorate_with_invariants(func: CallableT, is_init: bool) -> CallableT:
 
     :param func: function to be wrapped
     :param is_init: True if the ``func`` is __init__
+    :param is_setattr:
+        True if the ``func`` is bound as __setattr__ in the class.
+        If not given, the name of the ``func`` decides (the function might have been defined under another name).
     :return: function wrapped with invariant checks
     """
     if _already_decorated_with_invariants(func=func):
@@ -1232,6 +1237,9 @@ def _decorate_with_invariants(func: CallableT, is_init: bool) -> CallableT:
 
     sign = inspect.signature(func)
     param_names = list(sign.parameters.keys())
+
+    if is_setattr is None:
+        is_setattr = func.__name__ == "__setattr__"
 
     if is_init:
 
@@ -1310,7 +1318,7 @@ def _decorate_with_invariants(func: CallableT, is_init: bool) -> CallableT:
 
                 invariants = (
                     instance.__class__.__invariants_on_setattr__
-                    if func.__name__ == "__setattr__"
+                    if is_setattr
                     else instance.__class__.__invariants_on_call__
                 )
 
@@ -1366,7 +1374,7 @@ def _decorate_with_invariants(func: CallableT, is_init: bool) -> CallableT:
 
                 invariants = (
                     instance.__class__.__invariants_on_setattr__
-                    if func.__name__ == "__setattr__"
+                    if is_setattr
                     else instance.__class__.__invariants_on_call__
                 )
 
@@ -1628,7 +1636,9 @@ def add_invariant_checks(cls: ClassT) -> None:
     # classes which come later in the method resolution order of a common sub-class.
 
     for name, func in names_funcs:
-        wrapper = _decorate_with_invariants(func=func, is_init=False)
+        wrapper = _decorate_with_invariants(
+            func=func, is_init=False, is_setattr=(name == "__setattr__")
+        )
         if wrapper is not func or name in unshadowed:
             if wrapper is not func and name not in cls.__dict__:
                 setattr(wrapper, "__is_inherited_copy__", True)
